@@ -331,6 +331,10 @@ class Check:
             "known_findings_hit": self.known_hits,
         }
         cov.update(self.cov)
+        if self.level != "proof":
+            cov.setdefault("explanation", "differential correspondence between the executable Gallina model and the implementation, "
+                           "plus an oracle restating the property on the implementation's own output; the Coq theorems for this "
+                           "property are not finished, so no proof-level claim is made")
         ev = {
             "property_id": self.pid,
             "tier": self.tier,
